@@ -10,7 +10,7 @@ from ..devsim import SimDevice
 
 ID = "C16"
 LEVEL = "exploration"
-SHARDS = {"quick": 4, "thorough": 16}
+SHARDS = {"quick": 8, "thorough": 16}
 RULE = ("model-based histories: a capability profile (breeze in {breeze-control, legacy away only, legacy breezeless only, legacy "
         "both, none}; rate select none/2-level/5-level; iECO, self-clean, vertical/horizontal swing angle present or not) and a "
         "list of up to 25 (quick) / 40 (thorough) operations from {set angle (every member), set rate select (members the profile "
@@ -343,4 +343,4 @@ def run(ctx) -> None:
                     ctx.check(case, lambda c: _run_one(ctx, c))
     ctx.sweep("each setter x profile family scripts", n, True)
     cases = st.fixed_dictionaries({"profile": profiles(), "ops": ops_strategy(25 if ctx.quick else 40)})
-    ctx.hyp("histories", cases, lambda c: _run_one(ctx, c), ctx.n(800, 96000))
+    ctx.hyp("histories", cases, lambda c: _run_one(ctx, c), ctx.n(3200, 160000))
